@@ -3,14 +3,17 @@ from kvfile import KVFile
 
 
 def saver(resource, db, batch_size):
-    gen = db.insert_generator(
-        (('{:08x}'.format(idx), row)
-         for idx, row
-         in enumerate(resource)),
-        batch_size=batch_size
-    )
-    for _, row in gen:
-        yield row
+    rows = []
+
+    def snapshots():
+        # the store serialises a row only after it was passed on (and possibly modified
+        # in place by later steps), so it is given a copy taken beforehand
+        for idx, row in enumerate(resource):
+            rows.append(row)
+            yield '{:08x}'.format(idx), copy.deepcopy(row)
+
+    for _ in db.insert_generator(snapshots(), batch_size=batch_size):
+        yield rows.pop()
 
 
 def loader(db):
